@@ -14,7 +14,7 @@ TITLE = 'Interpolated phase is anchored at cyclepoints and monotone between them
 REGISTER = True
 TECHNIQUE = ('exhaustive enumeration of every alternating peak/decay/trough/rise placement on short arrays plus Hypothesis-generated '
              'cyclepoints from find_extrema / find_zerox (signals cut so that the last extremum sits on the last samples), against a '
-             'validity predicate (anchor values, range, finiteness exactly on the span, monotone except the wrap at troughs)')
+             'validity predicate (anchor values, range, finiteness exactly on the span, monotone except the wrap at troughs); midpoints for all, some or no flanks; enumerated very long arrays (beyond 2^20 and 2^24 samples, flanks of 1e5..4e5 samples); atheris/libFuzzer part in the thorough tier')
 LEVEL_TEXT = ('Exhaustive for arrays of length <= 14 (quick) / <= 19 (thorough): every alternating extremum sequence with gaps >= 2, both '
               'start kinds, midpoints omitted / supplied at every position of [start, end) / plus an optional leading or trailing '
               'midpoint; random search with real pipelines (900 quick, 40k thorough). Complete below the bound, sampling above it.')
